@@ -3,7 +3,8 @@
 # Confirms a sub-agent's change in its scratch worktree (demo fails with it, passes without, existing tests still
 # pass), then applies it to /repo, runs the checks, reverts /repo, and stores everything under /verif/seeded/<ID>-<n>/.
 ID="$1"; N="$2"; shift 2; EXTRA="$@"
-SUF="${WT_SUFFIX:-}"; WT=/tmp/wt/$ID$SUF; OUT=$WT/out; V=/verif; DEST=$V/seeded/$ID$SUF-$N
+SUF="${WT_SUFFIX:-}"; WT=/tmp/wt/$ID$SUF; OUT=$WT/out; V=${EVAL_VERIF:-/verif}; REPO=${EVAL_REPO:-/repo}; DEST=/verif/seeded/$ID$SUF-$N
+export VERIF_REPO=$REPO
 [ -f "$OUT/change$N.diff" ] || { echo "no $OUT/change$N.diff"; exit 2; }
 cd "$WT" || exit 2
 git checkout -q -- . ; git clean -fdq -e out -e target -e Cargo.lock
@@ -25,7 +26,7 @@ echo "failed tests: $nfail (expected 6 network tests) other: ${fails:-none}"
 git checkout -q -- . ; git clean -fdq -e out -e target -e Cargo.lock
 echo "demo rc without=$rc_without with=$rc_with"
 # now against /repo with the checks
-cd /repo && git diff --quiet || { echo "/repo dirty"; exit 2; }
+cd $REPO && git diff --quiet || { echo "$REPO dirty"; exit 2; }
 git apply "$OUT/change$N.diff" || exit 2
 caught=""; results=""
 for c in $ID $EXTRA; do
@@ -35,7 +36,7 @@ for c in $ID $EXTRA; do
   results="$results$c:rc=$rc;"
   [ $rc -eq 1 ] && caught="$caught $c"
 done
-git -C /repo checkout -- .
+git -C $REPO checkout -- .
 mkdir -p "$DEST"; cp "$OUT/change$N.diff" "$DEST/patch.diff"; cp "$OUT/demo$N.rs" "$DEST/demo.rs"
 python3 - "$ID" "$N" "$rc_without" "$rc_with" "$nfail" "$caught" "$results" "$place" "$runcmd" <<'PY'
 import json,sys
